@@ -2249,3 +2249,30 @@ def m_key_data(it, args, fr, callee):
 @tmodel('DefaultKey', 'From', 'from')
 def m_key_from(it, args, fr, callee):
     return Agg('DefaultKey', None, [args[0]])
+
+
+# `?` operator ----------------------------------------------------------------------------------------
+@tmodel('Option', 'Try', 'branch')
+def m_opt_branch(it, args, fr, callee):
+    o = args[0]
+    if o.variant == 1:
+        return Agg('ControlFlow', 0, [o.fields[0]])
+    return Agg('ControlFlow', 1, [none()])
+
+
+@tmodel('Option', 'FromResidual', 'from_residual')
+def m_opt_from_residual(it, args, fr, callee):
+    return none()
+
+
+@tmodel('Result', 'Try', 'branch')
+def m_res_branch(it, args, fr, callee):
+    o = args[0]
+    if o.variant == 0:
+        return Agg('ControlFlow', 0, [o.fields[0]])
+    return Agg('ControlFlow', 1, [err(o.fields[0])])
+
+
+@tmodel('Result', 'FromResidual', 'from_residual')
+def m_res_from_residual(it, args, fr, callee):
+    return args[0]
